@@ -54,6 +54,18 @@ void build_menu()
   std::sort(P.begin(), P.end(), [](const Problem & a, const Problem & b) { return a.name < b.name; });
   for (size_t i = 1; i < P.size(); ++i)
     if (P[i].name == P[i - 1].name) mc::harness_error("duplicate problem name " + P[i].name);
+  // representatives (one or two per family / argument type) for the judged menu of depth-2 history states
+  static const char * const DEEP[] = {"lin/static3/wc", "lin/static3/rankdef", "lin/dynamic2/wc0", "poly/scalar/x2+1", "poly/vec2/rosenbrock",
+    "align/SO3/n3/generic/exact", "align/SE3/n6/generic/pert+1e-3", "align/SE2/n3/generic/pert+1e-3", "curve/vector<Vector2d>/K3/w0.5",
+    "twoarg/(SO3,VectorXd)/n3/generic/exact", "sparse/chain3xSO3/generic", "sparse/linear/n8/w2"};
+  size_t ndeep = 0;
+  for (auto & p : P)
+    for (auto * nm : DEEP)
+      if (p.name == nm) {
+        p.deep = true;
+        ++ndeep;
+      }
+  mc::selfcheck("menu: all depth-2 representatives exist", ndeep == sizeof(DEEP) / sizeof(DEEP[0]));
   size_t wc = 0, basin = 0;
   for (auto & p : P)
     if (p.wellcond) {
@@ -68,13 +80,15 @@ struct PSM
 {
   int prob, start, mode;
 };
-/// (problem, start, mode) triples; level 0: everything in the tier; level 1: reduced (for deep history states)
+/// (problem, start, mode) triples; level 0: everything in the tier; level 1: history start menu, Numerical | Analytic;
+/// level 2: level 1 restricted to the representative problems
 std::vector<PSM> psm_menu(int level)
 {
   std::vector<PSM> v;
   auto & P = problems();
   for (size_t i = 0; i < P.size(); ++i) {
     if (!mc::thorough() && !P[i].quick) continue;
+    if (level >= 2 && !P[i].deep) continue;
     for (int s = 0; s < P[i].nstarts; ++s) {
       if (level >= 1 && !P[i].hist[size_t(s)]) continue;
       for (int m = 0; m < NMODES; ++m) {
@@ -134,7 +148,7 @@ RunOut judge_case(mc::Case & c, const PSM & q, int mi, int pt, int ft, const Nod
     return spec_str(q, mi, pt, ft) + " strategy=" + st.s.str() + (st.witness.empty() ? std::string(" (fresh)") : " left by history: " + st.witness);
   };
   c.param("delta", st.s.delta);
-  c.param("reduce", st.s.reduce);
+  c.param("wellcond", P.wellcond ? 1 : 0);
   c.param("ptol", TOLS[pt]);
   c.param("ftol", TOLS[ft]);
   c.param("max_iter", double(m));
@@ -142,33 +156,40 @@ RunOut judge_case(mc::Case & c, const PSM & q, int mi, int pt, int ft, const Nod
   const RunOut A = P.run(q.start, q.mode, m, TOLS[pt], TOLS[ft], st.s);
   const RunOut B = P.run(q.start, q.mode, m + 1, TOLS[pt], TOLS[ft], st.s);
 
+  if (c.verbose) {
+    static const char * const SN[3] = {"Ftol", "Ptol", "MaxIters"};
+    printf("  run A (max_iter=%zu): status=%s iter=%u callbacks=%zu end-strategy=%s\n", m, SN[A.status], A.iter, A.tr.size(), A.end.str().c_str());
+    for (size_t k = 0; k < A.tr.size(); ++k) printf("    callback %zu: |f|^2=%.21Lg  args=%s\n", k, A.cost[k], flat_str(A.tr[k]).c_str());
+    printf("    on return:  |f|^2=%.21Lg  args=%s  distance to closed-form minimiser=%g\n", A.cost_fin, flat_str(A.fin).c_str(), A.dist_min);
+    printf("  run B (max_iter=%zu): status=%s iter=%u callbacks=%zu\n", m + 1, SN[B.status], B.iter, B.tr.size());
+  }
   c.outcome(A.status == 0 ? "status Ftol" : (A.status == 1 ? "status Ptol" : "status MaxIters"));
   if (A.iter > A.tr.size() - 1 + (A.tr.empty() ? 1 : 0)) c.outcome("some iterations rejected their step");
   if (!A.cost.empty() && A.cost[0] == 0) c.outcome("zero residual at start");
 
   // ---- trace
   c.require("first callback at the start point", !A.tr.empty() && flat_diff(A.tr[0], A.start) == 0);
+  const double rt = std::sqrt(double(P.nres));  // rounding errors of the components of f add up in |f|
   double kworst = 0;
   bool beyond4  = false;
   for (size_t k = 0; k + 1 < A.cost.size(); ++k) {
-    const double kn = needed_k(A.cost[k], A.cost[k + 1], std::max(A.scale[k], A.scale[k + 1]));
+    const double kn = needed_k(A.cost[k], A.cost[k + 1], rt * std::max(A.scale[k], A.scale[k + 1]));
     if (!(kn == kn)) {
       kworst = NAN;
       break;
     }
     if (kn > 0) beyond4 = true;
-    if (kn > 0 && getenv("C09_DEBUG")) fprintf(stderr, "DBG mode=%d k=%zu/%zu c0=%.17Lg c1=%.17Lg rel=%.3Lg kn=%.3g S=%.3g status=%d :: %s\n", q.mode, k, A.cost.size(), A.cost[k], A.cost[k+1], (A.cost[k+1]-A.cost[k])/A.cost[k]/EPS, kn, A.scale[k], A.status, c.desc().c_str());
     kworst = std::max(kworst, kn);
   }
   if (beyond4) c.outcome("a step's cost increase exceeded 4eps|f|^2 (explained by f rounding)");
-  c.judge("callback cost non-increasing: |df| needed / (eps*fscale)", kworst, KF);
+  c.judge("callback cost non-increasing: |df| needed / (eps*sqrt(m)*fscale)", kworst, KF);
   const double fd = A.tr.empty() ? INFINITY : flat_diff(A.fin, A.tr.back());
   if (fd != 0) c.outcome("arguments on return differ from last callback by rounding");
   c.judge("arguments on return = last callback (in eps)", fd / EPS, KFINAL);
   {
     // returned point not worse than the start: allow one f-rounding per callback
-    double kn = A.cost.empty() ? INFINITY : needed_k(A.cost[0], A.cost_fin, std::max(A.scale[0], A.scale_fin));
-    c.judge("returned point not worse than start: |df| needed / (eps*fscale) per callback", kn / double(std::max<size_t>(1, A.tr.size())), KF);
+    double kn = A.cost.empty() ? INFINITY : needed_k(A.cost[0], A.cost_fin, rt * std::max(A.scale[0], A.scale_fin));
+    c.judge("returned point not worse than start: |df| needed / (eps*sqrt(m)*fscale) per callback", kn / double(std::max<size_t>(1, A.tr.size())), KF);
   }
   // ---- iteration bound and status contract
   c.require("iter <= max_iter", A.iter <= m);
@@ -214,6 +235,25 @@ void parallel_for(size_t n, const std::function<void(size_t)> & fn)
 }  // namespace
 
 // ====================================================================================================================
+namespace {
+std::string family_of(const Problem & P) { return P.name.substr(0, P.name.find('/')); }
+std::vector<std::string> families()
+{
+  std::vector<std::string> f;
+  for (auto & P : problems())
+    if (std::find(f.begin(), f.end(), family_of(P)) == f.end()) f.push_back(family_of(P));
+  return f;
+}
+std::vector<PSM> filter_family(const std::vector<PSM> & m, const std::string & fam)
+{
+  std::vector<PSM> v;
+  for (auto & q : m)
+    if (family_of(problems()[size_t(q.prob)]) == fam) v.push_back(q);
+  return v;
+}
+const char * const KIND[2] = {"Ceres", "Disney"};
+}  // namespace
+
 MC_SUBCHECK(a_fresh)
 {
   build_menu();
@@ -222,12 +262,16 @@ MC_SUBCHECK(a_fresh)
     Node fresh;
     fresh.s    = fresh_state(kind);
     fresh.conv = true;
-    mc::explore(std::string("C09/fresh/") + (kind == 0 ? "Ceres" : "Disney"), menu.size() * 45, [&](mc::Case & c) {
-      mc::Radix r(c.idx);
-      const int ft = int(r.next(3)), pt = int(r.next(3)), mi = int(r.next(5));
-      const PSM & q = menu[r.next(menu.size())];
-      judge_case(c, q, mi, pt, ft, fresh);
-    });
+    for (auto & fam : families()) {
+      const auto fm = filter_family(menu, fam);
+      if (fm.empty()) continue;
+      mc::explore(std::string("C09/fresh/") + KIND[kind] + "/" + fam, fm.size() * 45, [&](mc::Case & c) {
+        mc::Radix r(c.idx);
+        const int ft = int(r.next(3)), pt = int(r.next(3)), mi = int(r.next(5));
+        const PSM & q = fm[r.next(fm.size())];
+        judge_case(c, q, mi, pt, ft, fresh);
+      });
+    }
   }
 }
 
@@ -235,13 +279,14 @@ MC_SUBCHECK(a_fresh)
 MC_SUBCHECK(b_history)
 {
   build_menu();
-  // ---- BFS over solve histories: transitions = history menu (reduced starts, Numerical + Analytic,
-  //      max_iter in {1,2,5,1000}, (ptol,ftol) in {(1e-12,1e-12),(1e-6,1e-6),(1e-2,1e-2)})
+  // ---- BFS over solve histories. Transitions = history menu: (problem, reduced start menu, Numerical | Analytic) x
+  //      max_iter in {1,2,5,1000} x (ptol,ftol) in {(1e-12,1e-12),(1e-6,1e-6),(1e-2,1e-2)}; states merged by exact bytes.
   const auto hmenu   = psm_menu(1);
   const int HMI[4]   = {1, 2, 3, 4};
   const int HTOL[3]  = {0, 1, 2};
   const size_t nh    = hmenu.size() * 4 * 3;
-  const int maxdepth = mc::thorough() ? 2 : 1;
+  int maxdepth       = mc::thorough() ? 2 : 1;
+  if (const char * e = getenv("C09_DEPTH")) maxdepth = atoi(e);
   std::map<StratState, Node> seen;
   std::vector<std::vector<StratState>> frontier(1);
   for (int kind = 0; kind < 2; ++kind) {
@@ -285,7 +330,7 @@ MC_SUBCHECK(b_history)
         n.s       = res[i].e;
         n.conv    = res[i].conv;
         n.depth   = d + 1;
-        const auto & w = seen[fr[i / nh]].witness;
+        const std::string w = seen[fr[i / nh]].witness;
         n.witness = (w.empty() ? std::string() : w + " ; then ") + "{" + spec_str(q, mi, tl, tl) + "}";
         seen[n.s] = n;
         frontier.back().push_back(n.s);
@@ -299,6 +344,14 @@ MC_SUBCHECK(b_history)
     std::string ex = "\"frontier_sizes\": [";
     for (size_t d = 0; d < frontier.size(); ++d) ex += (d ? ", " : "") + std::to_string(frontier[d].size());
     ex += "], \"history_menu\": " + std::to_string(nh);
+    size_t nconv = 0;
+    double dmin = INFINITY, dmax = 0;
+    for (auto & kv : seen) {
+      nconv += kv.second.conv;
+      dmin = std::min(dmin, kv.first.delta);
+      dmax = std::max(dmax, kv.first.delta);
+    }
+    ex += mc::fmt(", \"states_left_by_a_converged_solve\": %zu, \"delta_min\": \"%.6g\", \"delta_max\": \"%.6g\"", nconv, dmin, dmax);
     std::vector<std::string> samples;
     for (size_t d = 1; d < frontier.size(); ++d)
       if (!frontier[d].empty()) {
@@ -307,29 +360,37 @@ MC_SUBCHECK(b_history)
       }
     mc::report_space("C09/bfs-strategy-states", seen.size(), transitions, transitions, samples, true, ex);
   }
-  // ---- judged spaces: every state of depth d x judged menu
-  for (int d = 1; d <= maxdepth; ++d) {
-    std::vector<Node> nodes;
-    for (auto & s : frontier[size_t(d)]) nodes.push_back(seen[s]);
-    if (nodes.empty()) continue;
-    // depth 1: the complete menu; depth 2: the reduced (history) menu with max_iter in {2,1000}
-    const auto menu = psm_menu(d == 1 && mc::thorough() ? 0 : 1);
-    const bool full = d == 1;
-    const size_t per = menu.size() * (full ? 45 : 2 * 3);
-    mc::explore(mc::fmt("C09/history/depth%d", d), nodes.size() * per, [&](mc::Case & c) {
-      mc::Radix r(c.idx);
-      int ft, pt, mi;
-      if (full) {
-        ft = int(r.next(3));
-        pt = int(r.next(3));
-        mi = int(r.next(5));
-      } else {
-        ft = pt = int(r.next(3));
-        mi      = r.next(2) ? 4 : 2;
+  // ---- judged spaces: every state of depth d x judged menu.
+  //      depth 1: history start menu x {Numerical, Analytic} x all 45 option triples;
+  //      depth 2: representative problems x history start menu x {Numerical, Analytic} x max_iter in {2,1000} x ptol=ftol in {1e-12,1e-2}
+  if (getenv("C09_BFSONLY")) return;
+  for (int d = 1; d <= maxdepth; ++d)
+    for (int kind = 0; kind < 2; ++kind) {
+      const auto menu = psm_menu(d == 1 ? 1 : 2);
+      std::vector<Node> nodes;
+      for (auto & s : frontier[size_t(d)])
+        if (s.kind == kind) nodes.push_back(seen[s]);
+      if (nodes.empty()) continue;
+      const bool full = d == 1;
+      for (auto & fam : families()) {
+        const auto fm = filter_family(menu, fam);
+        if (fm.empty()) continue;
+        const size_t per = fm.size() * (full ? 45 : 2 * 2);
+        mc::explore(mc::fmt("C09/history/depth%d/%s/%s", d, KIND[kind], fam.c_str()), nodes.size() * per, [&](mc::Case & c) {
+          mc::Radix r(c.idx);
+          int ft, pt, mi;
+          if (full) {
+            ft = int(r.next(3));
+            pt = int(r.next(3));
+            mi = int(r.next(5));
+          } else {
+            ft = pt = r.next(2) ? 2 : 0;
+            mi      = r.next(2) ? 4 : 2;
+          }
+          const PSM & q  = fm[r.next(fm.size())];
+          const Node & n = nodes[r.next(nodes.size())];
+          judge_case(c, q, mi, pt, ft, n);
+        });
       }
-      const PSM & q  = menu[r.next(menu.size())];
-      const Node & n = nodes[r.next(nodes.size())];
-      judge_case(c, q, mi, pt, ft, n);
-    });
-  }
+    }
 }
